@@ -29,6 +29,7 @@ from panicfree import fn_short
 from report import site_of
 
 NARROW = 1 << 16
+FLOOR_WALK_CALLS = 89   # counted: header reads, child decoders and skips of the 20 box-walk loops
 FLOOR_BOXWALK = 18      # counted on the pinned tree: 20 (15 container whiles, 2 top-level, avc1, mp4a, dref)
 FLOOR_LOOPS = 60
 
@@ -509,6 +510,7 @@ def run(fx, chk, tier):
     chk.rule("R-BOXWALK.ii", "every reposition after the header read is driven by the size just read")
     chk.rule("R-BOXWALK.iii", "the stream position is re-read every iteration")
     chk.rule("R-BOXWALK.iv", "at every reposition the child size is proved >= 1 (zero-size guard)")
+    chk.rule("R-BOXWALK.v", "a child decoder, skip or header read that fails inside a box walk ends the walk: its error is propagated, never swallowed (after a failure the stream is somewhere inside the child, and resuming the walk there re-parses bytes already visited) (C10 R1 instances at the walk's call sites)")
     chk.rule("R-COST", "no in-memory or parsed-bound loop is nested (directly or through callees) inside another non-constant loop")
     chk.rule("R-NOREC", "no recursion in the reader closure")
     chk.assume("A-LEN, A-POS, A-MEM as in C06; read_exact(n) on success consumed n bytes; box containment is acyclic (no recursion) so the walk depth is constant")
@@ -591,6 +593,22 @@ def run(fx, chk, tier):
                     best = 1
                     break
         mem_depth[fid] = best
+    # R-BOXWALK.v: the C10 R1 instances whose call site is a child consumer inside a box-walk loop
+    walk_sites = set()
+    for fid, ls in sorted(fn_loops.items()):
+        fn = fx.fns[fid]
+        body = body_of(fn)
+        for L in ls:
+            if L.kind != "BOXWALK":
+                continue
+            for b, t in LP.calls_in(body, L.blocks):
+                p = callee_path(t["callee"]) or ""
+                tr = short(((fx.fns.get(p) or {}).get("impl") or {}).get("trait") or "")
+                if p.endswith("::skip_box") or tr.startswith("ReadBox<") or is_header_read(t) or p.endswith("::skip_bytes_to") or p.endswith("::skip_bytes"):
+                    walk_sites.add(str(site_of(fn, t.get("line"))))
+    from packs_common import compose
+    compose(fx, chk, tier, "R-BOXWALK.v", "C10", ["R1"], keyfilter=lambda o: o["rule"] == "R1" and str(o["site"]) in walk_sites, floor=FLOOR_WALK_CALLS, what="fallible child consumers inside box-walk loops")
+
     def mem_in_region(g, region, depth=0):
         """does callee g loop over an in-memory collection on the side of the `trafs.is_empty()` split the caller's loop is on?
         (a lookup called from the non-fragmented branch never runs the callee's fragment search)"""
